@@ -100,7 +100,20 @@ def _work(task):
         base_lay = layout.lay_out(toks, [" "] * (len(toks) - 1), None, filename=FILENAME)
         b = _observe(base_lay.text)
         if b[0][0] == "rejected":
-            continue
+            # the single-space layout is one layout among others: if another
+            # layout of the same tokens is accepted, that one is the accepted
+            # program and the single-space layout its rejected re-layout
+            for name, seps, dirs, *alt in variants(toks, False):
+                if alt or dirs:
+                    continue
+                lay = layout.lay_out(toks, seps, None, filename=FILENAME)
+                v = _observe(lay.text)
+                n += 1
+                if v[0][0] != "rejected":
+                    b, base_lay = v, lay
+                    break
+            else:
+                continue
         distinct += 1
         for name, seps, dirs, *alt in variants(toks, len(toks) <= pair_max):
             lay = layout.lay_out(alt[0] if alt else toks, seps, dirs, filename=FILENAME)
@@ -182,8 +195,9 @@ def run(tier):
     # token sequences given as such (the pool's texts are split with the lexer
     # under test, which cannot show a lexer that rewrites the text first):
     # tokens that contain raw tabs, form feeds are not used (not white space here)
-    items.append(("T:tabs", ["char", "*", "s", "=", '"a\tb\t"', ";", "char", "c", "=", "'\t'", ";",
-                             "#pragma x\ty\t\n", "int", "z", "=", "L'\t'", "+", 'sizeof', "(", '"\t"', ")", ";"]))
+    items.append(("T:tabs-string", ["char", "*", "s", "=", '"a\tb\t"', ";", "int", "z", "=", 'sizeof', "(", 'L"\t"', ")", ";"]))
+    items.append(("T:tabs-char", ["char", "c", "=", "'\t'", ";", "int", "z", "=", "L'\t'", ";"]))
+    items.append(("T:tabs-pragma", ["int", "x", ";", "#pragma x\ty\t\n", "int", "z", ";", "#pragma \t\n"]))
     items.append(("T:blanks", ["char", "*", "s", "=", '"a  b   "', '" "', ";", "#pragma  p   q  \n", "int", "z", ";"]))
     # de-duplicate by token sequence, smallest first
     seen = set()
